@@ -16,7 +16,9 @@ TRUSTED = [
     "Model/ProtoSM.v: hand-written machines for the generated C++ / Python / MATLAB base classes as functions of the protocol shape, "
     "tied to the code by driving the real generated Python and C++ base classes (stub implementations) with ALL call sequences up to a "
     "length bound for ALL shapes up to a length bound, and by parsing the guards/assignments out of the generated MATLAB text",
-    "MATLAB is analysed as text only (no MATLAB/Octave in the sandbox); harness; g++; CPython",
+    "MATLAB is never executed by MATLAB/Octave (not in the sandbox): the public methods of the generated base classes are run by "
+    "the translator harness/lib/matlabsm.py (interpreter for exactly the statement forms the generator emits, refuses anything else) "
+    "on call histories incl. empty batches, and their guard tables are parsed from the text; harness; g++; CPython",
 ]
 LET = "abcdefghijklmnopqrstuvwxyz"
 
@@ -119,8 +121,9 @@ def run(ctx):
     ctx.coverage["rule"] = ("ALL protocol shapes (stream / non-stream patterns) up to 3 steps plus random longer ones; for each, ALL call "
                             "sequences up to a length bound over the API alphabet (write / batch write / end / read / batch read with both "
                             "answers of the underlying stream / get iterable / exhaust iterable / close) plus valid complete sequences with "
-                            "a second close, driven on the real generated Python and C++ base classes with stub implementations; MATLAB "
-                            "guard tables parsed from the generated text; accept/reject (and end markers written) compared with "
+                            "a second close, driven on the real generated Python and C++ base classes with stub implementations; the "
+                            "generated MATLAB base classes interpreted from their text on the same kind of histories (stream writes "
+                            "with empty and non-empty batches, has/read with both answers) and their guard tables parsed; accept/reject (and end markers written) compared with "
                             "Model.ProtoSM inside Coq; non-trivial = at least 2 calls; distinct by (machine, shape, calls)")
     if not ok:
         ctx.report("proof:" + str(failing), "theorem/dependency no longer checks: %s" % failing,
@@ -174,6 +177,14 @@ def run(ctx):
                     live.discard(c[1])
             if okq:
                 cases.append(("pyr", shp, list(q), pname))
+        # MATLAB: the generated text is run by the translator harness/lib/matlabsm.py; a stream write comes with a non-empty (I)
+        # and with an empty (Z) batch
+        mwa = [("C", 0)] + [x for i in range(n) for x in ([("I", i), ("Z", i), ("E", i)] if shp[i] else [("V", i)])]
+        mra = [("C", 0)] + [x for i in range(n) for x in ([("H", i, 0), ("H", i, 1), ("R", i)] if shp[i] else [("V", i)])]
+        for q in seqs(mwa, maxlen if small else 3, rng, capn) + [tuple(valid_seq_w(shp, rng) + [("C", 0)]) for _ in range(2)]:
+            cases.append(("matw", shp, [(("I", c[1]) if c[0] == "B" else c) for c in q], pname))
+        for q in seqs(mra, maxlen if small else 3, rng, capn):
+            cases.append(("matr", shp, list(q), pname))
     # ---- run C++
     cpp_in, cpp_idx = [], []
     for k, (m, shp, q, pname) in enumerate(cases):
@@ -209,6 +220,42 @@ def run(ctx):
         r = json.loads(ln)
         observed[k] = (r["accepted"], r["ends"])
 
+    # ---- run the MATLAB text
+    import matlabsm
+    mdir0 = os.path.join(gp.dir, "matlab", "+smx")
+    mtext, mat_unreadable = {}, set()
+    for k, (m, shp, q, pname) in enumerate(cases):
+        if m not in ("matw", "matr"):
+            continue
+        steps = dict(pkg.protocols)[pname]
+        key = (pname, m)
+        if key in mat_unreadable:
+            continue
+        try:
+            if key not in mtext:
+                mtext[key] = open(os.path.join(mdir0, pname + ("WriterBase.m" if m == "matw" else "ReaderBase.m"))).read()
+            mach = matlabsm.Machine(mtext[key])
+            calls = []
+            for c in q:
+                sn = steps[c[1]][0] if c[0] != "C" else None
+                if c[0] == "C":
+                    calls.append(("close", False, None))
+                elif m == "matw":
+                    calls.append(({"V": "write_", "I": "write_", "Z": "write_", "E": "end_"}[c[0]] + sn, c[0] == "Z", None))
+                elif c[0] == "H":
+                    calls.append(("has_" + sn, False, {"has_%s_" % sn: bool(c[2])}))
+                else:
+                    calls.append(("read_" + sn, False, None))
+            observed[k] = (mach.run(calls), 0)
+        except matlabsm.MatlabShapeError as ex:
+            mat_unreadable.add(key)
+            ctx.report("matlab-text-unreadable:" + m, "the generated MATLAB %s base class of protocol %s has a statement the translator "
+                       "harness/lib/matlabsm.py does not know: %s" % ("writer" if m == "matw" else "reader", pname, ex),
+                       {"protocol": pname, "shape": list(shp), "error": str(ex),
+                        "broken": "translation of the generated MATLAB text (Model.ProtoSM.mat%s_step not tied)" % m[3]}, no_input=True)
+    cases = [c for k, c in enumerate(cases) if k in observed]
+    observed = {i: observed[k] for i, k in enumerate(sorted(observed))}
+
     # ---- Coq comparison
     def coq_case(k):
         m, shp, q, pname = cases[k]
@@ -229,6 +276,17 @@ def run(ctx):
         if m == "pyw":
             cs = "; ".join(("PWClose" if c[0] == "C" else ("PWVal %d" if c[0] == "V" else "PWStream %d") % c[1]) for c in q)
             return "PyW %s [%s] %s %d" % (shs, cs, a, ends)
+        if m == "matw":
+            cs = "; ".join({"V": "WVal %d", "I": "WItem %d", "Z": "WItem %d", "E": "WEnd %d"}[c[0]] % c[1] if c[0] != "C" else "WClose" for c in q)
+            return "MatW %s [%s] %s" % (shs, cs, a)
+        if m == "matr":
+            def mc_(c):
+                if c[0] == "C":
+                    return "MClose"
+                if c[0] == "H":
+                    return "MHas %d %s" % (c[1], "true" if c[2] else "false")
+                return ("MVal %d" if c[0] == "V" else "MRead %d") % c[1]
+            return "MatR %s [%s] %s" % (shs, "; ".join(mc_(c) for c in q), a)
         cs = "; ".join(("PRClose" if c[0] == "C" else {"V": "PRVal %d", "G": "PRGet %d", "X": "PRExhaust %d", "A": "PRAbandon %d"}[c[0]] % c[1]) for c in q)
         return "PyR %s [%s] %s" % (shs, cs, a)
     idxs = list(range(len(cases)))
